@@ -389,6 +389,7 @@ type FuncContract struct {
 	Notes    []string
 	Assumes  []*Clause // explicit assumptions (listed in evidence)
 	Replay   string
+	IsLemma  bool
 }
 
 type ContractFile struct {
@@ -477,6 +478,10 @@ func parseContractFile(path, pkgPath string) (*ContractFile, error) {
 				}
 			}
 			cur.Key = name
+			cf.Funcs = append(cf.Funcs, cur)
+		case "lemma":
+			cur = &FuncContract{PkgPath: pkgPath, Loops: map[int]*LoopContract{}, File: path, Line: ln + 1, IsLemma: true, Key: "lemma:" + strings.TrimSpace(rest)}
+			curLoop = nil
 			cf.Funcs = append(cf.Funcs, cur)
 		case "spec":
 			// spec Name opaque
